@@ -15,6 +15,9 @@ pub struct Case {
     /// tokens that must be present: (start, end, kind) in characters
     #[serde(default)]
     pub must: Vec<(usize, usize, String)>,
+    /// calculator with a user-defined unit 'qq' (readable as '5 qq' and 'qq 5')
+    #[serde(default, skip_serializing_if = "std::ops::Not::not")]
+    pub user_unit: bool,
 }
 
 /// structural well-formedness of one line's tokens
@@ -53,7 +56,7 @@ impl Prop for C17 {
         let mut f: Vec<Family<Case>> = Vec::new();
         for fam in seqs::families(tier) {
             let gen = fam.gen;
-            f.push(Family { name: fam.name, mode: fam.mode, bounds: fam.bounds, gen: Box::new(move |ch| gen(ch).map(|s| Case { seq: s, must: Vec::new() })) });
+            f.push(Family { name: fam.name, mode: fam.mode, bounds: fam.bounds, gen: Box::new(move |ch| gen(ch).map(|s| Case { seq: s, must: Vec::new(), user_unit: false })) });
         }
         // the single-line generators of C01 that do not depend on a configuration: boundary values of
         // every kind combined by operators, every word of config.json in 7 positions, all unit pairs
@@ -68,7 +71,7 @@ impl Prop for C17 {
                     name: fam.name,
                     mode: fam.mode,
                     bounds: format!("{} (the C01 generator, here with the structural oracle on the highlight tokens)", fam.bounds),
-                    gen: Box::new(move |ch| gen(ch).map(|c| Case { seq: SeqCase { lang: c.lang, text: c.text, now: c.now }, must: Vec::new() })),
+                    gen: Box::new(move |ch| gen(ch).map(|c| Case { seq: SeqCase { lang: c.lang, text: c.text, now: c.now }, must: Vec::new(), user_unit: false })),
                 });
             }
         }
@@ -118,7 +121,48 @@ impl Prop for C17 {
                     must.push((pos, pos + c.chars().count(), "Comment".to_string()));
                     push(&mut text, &mut pos, &c);
                 }
-                Some(Case { seq: SeqCase { lang: "en".into(), text, now: None }, must })
+                Some(Case { seq: SeqCase { lang: "en".into(), text, now: None }, must, user_unit: false })
+            },
+        ));
+        f.push(Family::new(
+            "bom-and-user-units",
+            Mode::Full,
+            "lines '[BOM]<lead><a> <op> <b>[ # c]' where <lead> is nothing or a multi-byte word, <a> / <b> are a number, a user-unit quantity written value-first ('5 qq') or unit-first ('qq 5') or a built-in quantity ('3 km'), optionally with U+FEFF as the very first character of the text: every number literal and operator is reported at its own character positions (positions count the BOM)",
+            move |ch| {
+                let bom = ch.flag();
+                let lead = *ch.pick(&["", "ş", "日本"]);
+                let forms = ["5", "5 qq", "qq 5", "3 km", "12,5"];
+                let a = *ch.pick(&forms);
+                let b = *ch.pick(&forms);
+                let op = *ch.pick(&["+", "*"]);
+                let comment = ch.flag();
+                let mut text = String::new();
+                let mut must = Vec::new();
+                if bom {
+                    text.push('\u{feff}');
+                }
+                if !lead.is_empty() {
+                    text.push_str(lead);
+                    text.push(' ');
+                }
+                let mut put = |text: &mut String, form: &str, must: &mut Vec<(usize, usize, String)>| {
+                    // the number literal inside the form
+                    let start = text.chars().count();
+                    let (pre, lit) = if let Some(rest) = form.strip_prefix("qq ") { ("qq ".chars().count(), rest) } else { (0, form.split(' ').next().unwrap()) };
+                    must.push((start + pre, start + pre + lit.chars().count(), "Number".to_string()));
+                    text.push_str(form);
+                };
+                put(&mut text, a, &mut must);
+                text.push(' ');
+                let p = text.chars().count();
+                must.push((p, p + 1, "Operator".to_string()));
+                text.push_str(op);
+                text.push(' ');
+                put(&mut text, b, &mut must);
+                if comment {
+                    text.push_str(" # şöyle");
+                }
+                Some(Case { seq: SeqCase { lang: "en".into(), text, now: None }, must, user_unit: true })
             },
         ));
         f.push(Family::new(
@@ -145,7 +189,7 @@ impl Prop for C17 {
                         text.push(' ');
                     }
                 }
-                Some(Case { seq: SeqCase { lang: "en".into(), text, now: None }, must })
+                Some(Case { seq: SeqCase { lang: "en".into(), text, now: None }, must, user_unit: false })
             },
         ));
         f
@@ -153,7 +197,8 @@ impl Prop for C17 {
 
     fn exec(&self, ctx: &mut Ctx, c: &Case) -> Verdict {
         seam::set_now(c.seq.now.unwrap_or(seam::DEFAULT_NOW));
-        let run = obs::eval(ctx.calc(&Cfg::default()), &c.seq.lang, &c.seq.text);
+        let cfg = if c.user_unit { Cfg { user_unit: Some((2, true, true)), ..Default::default() } } else { Cfg::default() };
+        let run = obs::eval(ctx.calc(&cfg), &c.seq.lang, &c.seq.text);
         seam::set_now(seam::DEFAULT_NOW);
         let mut input = String::new();
         if c.seq.lang != "en" {
